@@ -1,16 +1,65 @@
+/-
+C11 – interrupted or failing stores never validate a mixed image silently.
+Property theorems only (helper lemmas: Ufw/Lemmas/Persist.lean; C10 for validate_iff).
+-/
 import Ufw.Model.Persist
+import Ufw.Lemmas.Persist
+import Ufw.Props.C10
+
 namespace Ufw.Props.C11
-open Ufw Ufw.Model.Persist
-/-- part accesses reaching beyond the data size - as natural numbers, so also pairs whose sum wraps in
-    size_t - are refused without touching the medium -/
-theorem part_bounds_again (f : List Octet → Nat → Nat) (s : Store) (m : Medium) (src : List Octet) (offset n : Nat) :
-    (offset + src.length > s.dataSize → persistent_store_part f s m src offset = (.outOfRange, m)) ∧
-    (offset + n > s.dataSize → persistent_fetch_part s m offset n = (.outOfRange, [], m)) := by
+open Ufw Ufw.Model.Persist Ufw.Lemmas.Persist
+
+/-- The medium after a store that was cut at any point – after any prefix of its writes, the last one
+    torn at any octet – is just some medium content.  On EVERY medium content (readable, inside the
+    region) a later validation succeeds if and only if the checksum field on the medium equals the
+    checksum function of the data image on the medium.  (At whole-write granularity the data image is
+    the previous or the new one, so a fetch after a successful validation returns one of the two.) -/
+theorem crash_consistent (f : List Octet → Nat → Nat) (s : Store) (hst : Streamable f s)
+    (cells : List Octet) (hfit : s.dataAddr + s.dataSize ≤ cells.length) :
+    let m : Medium := { cells := cells }
+    ((persistent_validate f s m).1 = .success ↔
+      Ufw.Spec.Endian.loadU s.hostBig (field s m) = Ufw.Props.C10.expected f s m) ∧
+    ((persistent_validate f s m).1 = .success ∨ (persistent_validate f s m).1 = .invalidData) := by
+  intro m
+  have hc : Clean m := ⟨rfl, rfl⟩
+  obtain ⟨m', e, _⟩ := Ufw.Props.C10.validate_iff f s hst m hc hfit
+  rw [e]
   constructor
-  · intro h
-    have : src.length > s.dataSize ∨ offset > s.dataSize - src.length := by omega
-    simp [persistent_store_part, this]
-  · intro h
-    have : n > s.dataSize ∨ offset > s.dataSize - n := by omega
-    simp [persistent_fetch_part, this]
+  · constructor
+    · intro h; by_cases hne : Ufw.Spec.Endian.loadU s.hostBig (field s m) = Ufw.Props.C10.expected f s m
+      · exact hne
+      · simp [hne] at h
+    · intro h; simp [h]
+  · by_cases h : Ufw.Spec.Endian.loadU s.hostBig (field s m) = Ufw.Props.C10.expected f s m <;> simp [h]
+
+/-- what a cut store leaves on the medium: with the write torn after `k` octets the medium holds the
+    first k octets of the write and the library performs no further access -/
+theorem torn_write (m : Medium) (addr : Nat) (d : List Octet) (k : Nat) (rest : List (Option Nat))
+    (hm : m.faults = some k :: rest) (hk : k < d.length) (hr : addr + d.length ≤ m.cells.length) :
+    (m.write addr d).1 = k ∧
+    (m.write addr d).2.cells = m.cells.take addr ++ (d.take k ++ m.cells.drop (addr + k)) ∧
+    (m.write addr d).2.faulted = true := by
+  have hl : (d.take k).length = k := by simp; omega
+  simp [Medium.write, hm, hr, hl]
+  omega
+
+/-- a medium read or write that fails or transfers short at any point of store, validate, fetch or
+    reset – under every fault script – is reported as I/O error, never as success (nor as any other
+    result) -/
+theorem io_error_propagates (f : List Octet → Nat → Nat) (s : Store) (m : Medium) (hm : m.faulted = false)
+    (src : List Octet) (offset n : Nat) (item : Octet) :
+    ((persistent_store_part f s m src offset).2.faulted = true → (persistent_store_part f s m src offset).1 = .ioError) ∧
+    ((persistent_validate f s m).2.faulted = true → (persistent_validate f s m).1 = .ioError) ∧
+    ((persistent_fetch_part s m offset n).2.2.faulted = true → (persistent_fetch_part s m offset n).1 = .ioError) ∧
+    ((persistent_reset s m item).2.faulted = true → (persistent_reset s m item).1 = .ioError) :=
+  ⟨(store_part_op f s m src offset).2 hm, (validate_op f s m).2 hm, (fetch_part_op s m offset n).2 hm,
+   (reset_op s m item).2 hm⟩
+
+/-! #### non-vacuity -/
+
+example : (persistent_store_part sum16 { sumAddr := 0, width := 2, init := 0, dataSize := 3, buf := none }
+    { cells := List.replicate 6 0#8, faults := [some 1] } [1#8, 2#8, 3#8] 0).1 = .ioError := by decide
+example : (persistent_validate sum16 { sumAddr := 0, width := 2, init := 0, dataSize := 3, buf := some 2 }
+    { cells := [6#8, 0#8, 1#8, 2#8, 3#8] }).1 = .success := by decide
+
 end Ufw.Props.C11
